@@ -80,6 +80,29 @@ FIRST = {
     "C19-6": ("missed", "append() was never generated, so shared header lists could not be mutated. Added append()/replace() and header-observing components."),
     "C20-5": ("caught (by the caller-stream clause of next_paths only)", "collect_paths was silent after an empty predecessor; the successor is now expected to read nothing."),
     "C20-6": ("caught", ""),
+    # ---- round 4 (rounds 1-3 excluded; agents told to dig into the code the anchored files call)
+    "C04-7": ("missed", "fail/fail_and_stop were never written with qualifiers. Added families fas_onmatch, plain_nocontrib, fas_nocontrib."),
+    "C04-8": ("missed", "no member failed outside its match components. Added family abort_outside (collect() of an unknown header) in serial CsvPaths runs."),
+    "C05-7": ("missed", "logic-mode OR was never used in C05. Added scenarios with the erroring component alone under logic-mode OR."),
+    "C05-8": ("missed", "no rule violation was reported through or(). Added kind rule_in_or (or(boolean(..), boolean(..)))."),
+    "C07-7": ("missed", "skip_blank_lines=False was never used. Added."),
+    "C07-8": ("caught", ""),
+    "C08-7": ("missed", "no physical line held only blanks. Added such lines to generated files."),
+    "C08-8": ("caught", ""),
+    "C09-7": ("missed", "no archived member file exceeded 64 KiB. Added (rarely) a 70 kB cell."),
+    "C09-8": ("caught", ""),
+    "C10-7": ("caught", ""),
+    "C10-8": ("missed", "no two runs were ever interleaved. Added the interleaved-callers scenario: a generator run obtained, another whole run performed, then the generator iterated."),
+    "C11-7": ("missed", "every registration succeeded. Added registrations that must fail (missing source / a directory)."),
+    "C11-8": ("caught", ""),
+    "C12-7": ("missed", "identities never ended in the letters of ':to'/':from'. Added."),
+    "C12-8": ("caught", ""),
+    "C18-7": ("caught", ""),
+    "C18-8": ("caught", ""),
+    "C19-7": ("missed", "every file had at least two records. Added header-only files."),
+    "C19-8": ("missed", "all twins were forks and shared the zygote's hash seed. One job of every scenario now also runs in a real fresh interpreter under another PYTHONHASHSEED; more zoo components per job."),
+    "C20-7": ("caught", ""),
+    "C20-8": ("missed", "header names were never all digits. Added such names to the referenced files."),
 }
 
 
